@@ -349,13 +349,31 @@ func normAtom(t *Term, nilness func(*Term) int) Atom {
 				a, b = b, a
 			}
 			if b.isConst() && b.Name == "nil" {
-				switch nilness(a) {
-				case 1:
-					return mkc(eq)
-				case -1:
-					return mkc(!eq)
+				at := Atom{Key: "IsNil(" + a.Key() + ")", Pol: pol == eq}
+				if a.isConst() || termNilness(a) != 0 {
+					// structurally decided: no informative atom
+					switch nilness(a) {
+					case 1:
+						return mkc(eq)
+					case -1:
+						return mkc(!eq)
+					}
 				}
-				return Atom{Key: "IsNil(" + a.Key() + ")", Pol: pol == eq}
+				switch nilness(a) {
+				case 1: // known nil: the atom IsNil holds
+					if at.Pol {
+						at.Const = 1
+					} else {
+						at.Const = -1
+					}
+				case -1:
+					if at.Pol {
+						at.Const = -1
+					} else {
+						at.Const = 1
+					}
+				}
+				return at
 			}
 			// boolean constants
 			if a.isConst() && (a.Name == "true" || a.Name == "false") {
